@@ -288,7 +288,7 @@ def build_oracle():
     exe = os.path.join(odir, "oracle")
     if os.path.exists(exe) and os.path.exists(stamp) and open(stamp).read() == key:
         return exe, None
-    rc, out = coq_make(["theories/Extract/Driver.vo"])
+    rc, out = coq_make(["theories/Extract/Driver.vo", "theories/Extract/DriverAlloc.vo"])
     if rc != 0:
         return None, "model does not compile: " + out[-1500:]
     for f in ("Model.ml", "Model.mli"):
